@@ -49,6 +49,7 @@ type Params struct {
 	MaxRead    int
 	Seed       int64
 	NoWait     bool
+	Stalls     bool // a goroutine may be held up for 5 ms / 1.5 s before an atomic write (a scheduling deviation)
 	RB         int  // reader's buffer size (0 = 4096)
 	SlowReader bool // the reader pauses 1 ms (virtual) between reads: the close overtakes it
 	Raw        bool // drive protocol.Mux directly: the client writes and closes without ever reading
@@ -84,6 +85,9 @@ func exec(p Params, pats []xfer.NamedTP, ctl *explore.Ctl) explore.Result {
 		C2S: simnet.StreamOpts{MaxRead: p.MaxRead}, S2C: simnet.StreamOpts{MaxRead: p.MaxRead}}
 	if cfg.MTU == 0 {
 		cfg.MTU = 1400
+	}
+	if p.Stalls {
+		cfg.Stalls = []time.Duration{5 * time.Millisecond, 1500 * time.Millisecond}
 	}
 	if p.Faults {
 		lat := p.Latency
@@ -415,6 +419,8 @@ func units(tier string) []runner.Unit {
 		base := base
 		base.Seed = int64(100 + bi)
 		us = append(us, runner.Unit{Name: fmt.Sprintf("tcp-sched-%d", bi), Split: true, Run: func(u *runner.U) {
+			base := base
+			base.Stalls = true
 			run(u, base, explore.Bound{Ds: 1})
 		}})
 		us = append(us, runner.Unit{Name: fmt.Sprintf("tcp-1byte-%d", bi), Run: func(u *runner.U) {
@@ -493,7 +499,7 @@ func units(tier string) []runner.Unit {
 	}
 	// UDP: scheduling deviations around the close
 	us = append(us, runner.Unit{Name: "udp-sched", Split: true, Run: func(u *runner.U) {
-		run(u, Params{UDP: true, MTU: 1400, Latency: 5 * time.Millisecond, Sizes: []int{2000}, TP: "nil", Seed: 300}, explore.Bound{Ds: 1})
+		run(u, Params{UDP: true, MTU: 1400, Latency: 5 * time.Millisecond, Sizes: []int{2000}, TP: "nil", Seed: 300, Stalls: true}, explore.Bound{Ds: 1})
 	}})
 	return us
 }
